@@ -17,6 +17,18 @@ one ndjson trace per job for spec/Search_Trace.tla.
            The trace header carries the database content (names) and the index
            tables as the code built them (for the drift comparison).
 
+ kind "h"  one history in ONE process state (the search engine object, its
+           class and every module-level slot live on between the steps): the
+           start database is filled as in kind "b", then the steps run in order:
+             Find / Pages / Facet   as above; a Find calls the engine, the front
+                    end or both (args.via)
+             Store  the entries args.xs are appended (util.append + prime key)
+             Remove dawgie.db.shelve.remove(run, target, task, alg, sv, value)
+             Reopen DBI().close(), a NEW directory, DBI().open(), filled with
+                    args.xs -- another database in the same process
+           Every step logs st = {db: the real prime table rendered to names,
+           tabs: the index tables} as they are after the step.
+
 Python only renders inputs and projects outputs to JSON; every verdict is TLC's.
 
 VERIF_MUTANT=<name> (self-test only, never set by ./check): the source text of
@@ -194,20 +206,23 @@ def fe_content(raw):
 
 def do_find(args):
     q, index, limit = args['q'], args['index'], args['limit']
+    via = args.setdefault('via', 'both')  # which entry points are called (recorded in the trace)
     obs = {'err': '', 'items': [], 'total': -1, 'fe_err': '', 'fe_items': [], 'fe_total': -1}
-    try:
-        res = dawgie.db.search().find(engine_params(q), index, limit if limit else None)
-        obs['items'], obs['total'] = [str(s) for s in res.items], int(res.total)
-    except Exception as ex:  # pylint: disable=broad-exception-caught
-        obs['err'] = err_of(ex)
-    try:
-        kw = url_params(q)
-        kw['index'] = [str(index)]
-        kw['limit'] = [str(limit)] if limit else None
-        content = fe_content(fe_database.search(**kw))
-        obs['fe_items'], obs['fe_total'] = [str(s) for s in content['items']], int(content['total'])
-    except Exception as ex:  # pylint: disable=broad-exception-caught
-        obs['fe_err'] = err_of(ex)
+    if via in ('db', 'both'):
+        try:
+            res = dawgie.db.search().find(engine_params(q), index, limit if limit else None)
+            obs['items'], obs['total'] = [str(s) for s in res.items], int(res.total)
+        except Exception as ex:  # pylint: disable=broad-exception-caught
+            obs['err'] = err_of(ex)
+    if via in ('fe', 'both'):
+        try:
+            kw = url_params(q)
+            kw['index'] = [str(index)]
+            kw['limit'] = [str(limit)] if limit else None
+            content = fe_content(fe_database.search(**kw))
+            obs['fe_items'], obs['fe_total'] = [str(s) for s in content['items']], int(content['total'])
+        except Exception as ex:  # pylint: disable=broad-exception-caught
+            obs['fe_err'] = err_of(ex)
     return obs
 
 
@@ -262,6 +277,61 @@ def run_db(job):
     return {'tid': job['id'], 'kind': 'b', 'db': job['db'], 'bump': bool(job['bump']), 'tabs': tabs, 'steps': steps}
 
 
+# ------------------------------------------------------------ (c) histories
+def content():
+    '''the real prime table, every key rendered to the names of the index tables'''
+    idx = DBI().indices
+    name = lambda table, i: util.dissect(table[i])[1]
+    return [
+        {'run': int(k[0]), 't': name(idx.target, k[1]), 'k': name(idx.task, k[2]), 'a': name(idx.alg, k[3]), 's': name(idx.state, k[4]), 'v': name(idx.value, k[5])}
+        for k in util.prime_keys(DBI().tables.prime)
+    ]
+
+
+def run_hist(job):
+    root = os.path.join(WORK, f'hist{job["id"]}')
+    shutil.rmtree(root, True)
+    gen = [0]
+    off, bump = job.get('off', 0), job['bump']
+
+    def fresh():
+        path = os.path.join(root, f'g{gen[0]}')
+        gen[0] += 1
+        os.makedirs(path)
+        dawgie.context.db_path = path
+        DBI().open()
+
+    def change(ev, xs):
+        obs = {'err': ''}
+        try:
+            if ev == 'Store':
+                fill(xs, bump, off)
+            elif ev == 'Remove':
+                for x in xs:
+                    dawgie.db.shelve.remove(x['run'], x['t'], x['k'], x['a'], x['s'], x['v'])
+            else:  # Reopen: close this database, open another one
+                DBI().close()
+                fresh()
+                fill(xs, bump, off)
+        except Exception as ex:  # pylint: disable=broad-exception-caught
+            obs['err'] = err_of(ex)
+        return obs
+
+    fresh()
+    try:
+        fill(list(reversed(job['db'])) if job['rev'] else list(job['db']), bump, off)
+        tabs = tables()
+        steps = []
+        for s in job['steps']:
+            ev, args = s['ev'], s['args']
+            obs = DO[ev](args) if ev in DO else change(ev, args['xs'])
+            steps.append({'ev': ev, 'args': args, 'obs': obs, 'st': {'db': content(), 'tabs': tables()}})
+    finally:
+        DBI().close()
+        shutil.rmtree(root, True)
+    return {'tid': job['id'], 'kind': 'h', 'db': job['db'], 'bump': bool(bump), 'tabs': tabs, 'steps': steps}
+
+
 def main():
     with open(sys.argv[1], 'rt', encoding='utf-8') as f:
         jobs = json.load(f)['jobs']
@@ -276,7 +346,7 @@ def main():
         assert sorted(row) == row
     with open(sys.argv[2], 'wt', encoding='utf-8') as out:
         for job in jobs:
-            rec = run_scrub(job) if job['kind'] == 'a' else run_db(job)
+            rec = {'a': run_scrub, 'b': run_db, 'h': run_hist}[job['kind']](job)
             out.write(json.dumps(rec) + '\n')
 
 
